@@ -4,6 +4,7 @@ from __future__ import annotations
 from typing import Any, Dict, List
 
 from sim.gen_worker import gen_worker_script
+from sim.worker_world import enc_labels
 from ._wcommon import (ASSUMPTIONS, COMPONENTS_REAL, COMPONENTS_STUB, Hist, Violation, default_nontrivial,  # noqa: F401
                        simplifications, simulate)
 
@@ -38,7 +39,7 @@ KNOBS = {
     "p_mw_replace": 0.0,
     "arrival": ["burst", "burst", "waves"],
     "durations": {"zero": 2, "tiny": 4, "short": 4, "medium": 2, "long": 0, "poll": 0},
-    "outcomes": {"ret": 8, "exc": 2, "baseexc": 0, "nores": 1, "requeue": 0},
+    "outcomes": {"ret": 8, "exc": 2, "baseexc": 0, "nores": 1, "requeue": 2},
 }
 
 
@@ -65,6 +66,8 @@ def gen(rs: int, tier: str, index: int) -> dict:
     for m in s["messages"]:
         if m.get("kind", "valid") == "valid":
             m["labels"] = {"own": ["str", f"L{m['k']}"], "n": ["int", str(m["k"] * 7)]}
+            if r.random() < 0.35:
+                m["labels"] = {}          # a message that carries no labels at all
             m["args"] = [f"a{m['k']}"]
             # prefer tasks with dependencies
             cands = [i for i, t in enumerate(s["tasks"]) if t.get("deps")]
@@ -99,6 +102,13 @@ def oracle(script: dict, run: Any) -> List[Violation]:
         tid = f"m{k}"
         want_args = [k] + list(m.get("args", []))
         want_own = (m.get("labels") or {}).get("own")
+        # the labels this very delivery carried on the wire (decoded from its own bytes)
+        try:
+            tm = h.world.extra["client"].formatter.loads(h.world.server.deliveries[d].raw)
+            tm.parse_labels()
+            want_labels = {n: v for n, v in enc_labels(tm.labels).items() if n != "chain"}
+        except Exception:  # noqa: BLE001
+            want_labels = None
 
         def check(where: str, seen: Any) -> None:
             if seen is None:
@@ -109,6 +119,8 @@ def oracle(script: dict, run: Any) -> List[Violation]:
                                      d=d, where=where))
             elif seen["args"] != want_args or seen["labels"].get("own") != want_own:
                 out.append(Violation("C06/foreign-message-data", f"delivery {d}: {where} observed args {seen['args']} labels {seen['labels']} (own: {want_args}, {want_own})"))
+            elif want_labels is not None and {n: v for n, v in seen["labels"].items() if n != "chain"} != want_labels:
+                out.append(Violation("C06/foreign-labels", f"delivery {d} (task id {tid}): {where} observed labels {seen['labels']}, its own message carries {want_labels}", d=d))
 
         ts = script["tasks"][m.get("task", 0)] if isinstance(m.get("task", 0), int) else {}
         uncached_nodes = set()
@@ -150,7 +162,8 @@ def oracle(script: dict, run: Any) -> List[Violation]:
 
 def probes(script: dict, run: Any) -> Dict[str, int]:
     h = Hist(run)
-    res = {"overlap_inside_dependency_resolution": 0, "uncached_dependency_resolved": 0, "max_overlap": 0,
+    res = {"overlap_inside_dependency_resolution": 0, "uncached_dependency_resolved": 0, "max_overlap": 0, "label_less_message": int(any(m.get("kind", "valid") == "valid" and not m.get("labels") for m in script["messages"])),
+           "requeued": int(run.fault_counts.get("requeue", 0) > 0),
            "dependency_override_resolved": int(any(e[5]["dep"].startswith("r") for e in h.kind("dep_open")))}
     live = set()
     resolving = set()
